@@ -91,6 +91,8 @@ def execute(g, op):
         g.delete_block(op[1])
     elif k == 'demote_block':
         g.demote_block(op[1])
+    elif k == 'demote_blocks':
+        g.demote_block(list(op[1]))
     elif k == 'add_connection':
         g.add_connection(t2g.t2connection([g.block[op[1]], g.block[op[2]]], 1, [1.0, 2.0], 3.0, 0.0))
     elif k == 'delete_connection':
@@ -308,6 +310,8 @@ def run_random(ctx, spec):
                     g.rename_rocktype(rn, new)
                 elif r < 0.72:
                     ds = rng.sample(names, rng.randint(1, min(4, len(names))))
+                    if len(ds) > 1 and rng.random() < 0.4:
+                        ds = ds + [ds[0]]                 # a name given twice
                     op = ('demote_block', ds)
                     g.demote_block(ds if len(ds) > 1 else ds[0])
                 elif r < 0.74 and g.num_blocks < 150 and all(not b.name[0].isdigit() for b in g.blocklist):
